@@ -22,6 +22,7 @@ import (
 	"strconv"
 	"strings"
 	"sync"
+	"sync/atomic"
 	"time"
 
 	remoteexecution "github.com/bazelbuild/remote-apis/build/bazel/remote/execution/v2"
@@ -206,6 +207,23 @@ type exec struct {
 	returned bool
 }
 
+// send hands a command to the executor goroutine and waits for its answer.
+func (e *exec) send(c cmd) (string, bool) {
+	t := time.NewTimer(time.Second)
+	defer t.Stop()
+	select {
+	case e.cmds <- c:
+	case <-t.C:
+		return "", false
+	}
+	select {
+	case r := <-c.reply:
+		return r, true
+	case <-t.C:
+		return "", false
+	}
+}
+
 func (e *exec) hasReturned() bool { e.mu.Lock(); defer e.mu.Unlock(); return e.returned }
 
 // isBlocked tells whether the executor goroutine is parked in a send on the
@@ -236,6 +254,7 @@ type world struct {
 	cur            *exec
 	run            *op      // the Run op in flight
 	synced         bool
+	anomaly        atomic.Bool // something timed out or overlapped: stop after this item
 	selDone        []string // executor steps performed during select (Gallina terms)
 	syncDone       []string
 	started        chan *exec
@@ -293,8 +312,12 @@ func (w *world) doExec(x xop) []piece {
 	switch x.K {
 	case "upd":
 		c := cmd{x: x, reply: make(chan string, 1)}
-		e.cmds <- c
-		res := <-c.reply
+		res, ok := e.send(c)
+		if !ok {
+			w.anomaly.Store(true)
+			w.info.Outs["executor-unresponsive"]++
+			return nil
+		}
 		w.info.Outs["exec-update-"+res]++
 		r := "XSent"
 		if res == "blocked" {
@@ -308,11 +331,15 @@ func (w *world) doExec(x xop) []piece {
 			return nil
 		}
 		c := cmd{x: x, reply: make(chan string, 1)}
-		e.cmds <- c
-		<-c.reply
+		if _, ok := e.send(c); !ok {
+			w.anomaly.Store(true)
+			w.info.Outs["executor-unresponsive"]++
+			return nil
+		}
 		// Wait for "updates <- Completed; close(updates)" to be over.
-		st, gone := waitState(e.gid, 2*time.Second, func(s string) bool { return s == "" })
+		st, gone := waitState(e.gid, time.Second, func(s string) bool { return s == "" })
 		if !gone {
+			w.anomaly.Store(true)
 			w.info.Outs["exec-finish-stuck-"+st]++
 			return []piece{{xevTerm(x), append(w.takeOuts(mark), g.App("OX", xevTerm(x), "XBlocked"))}}
 		}
@@ -424,6 +451,7 @@ func (w *world) Execute(ctx context.Context, filePool pool.FilePool, monitor acc
 	for _, o := range w.execs {
 		if !o.hasReturned() {
 			overlap = true
+			w.anomaly.Store(true)
 		}
 	}
 	e.id = len(w.execs)
@@ -668,7 +696,7 @@ func (area) Execute(raw json.RawMessage) (string, *hcommon.Info, error) {
 	}
 
 	for i := range h.Ops {
-		if hung {
+		if hung || w.anomaly.Load() {
 			break
 		}
 		o := &h.Ops[i]
@@ -708,7 +736,7 @@ func (area) Execute(raw json.RawMessage) (string, *hcommon.Info, error) {
 			rgid := <-gidCh
 			var res runResult
 			got := false
-			watchdog := time.After(10 * time.Second)
+			watchdog := time.After(2 * time.Second)
 			for !got && !hung {
 				select {
 				case res = <-done:
@@ -716,12 +744,13 @@ func (area) Execute(raw json.RawMessage) (string, *hcommon.Info, error) {
 				case e := <-w.cancelObserved:
 					// Let the executor finish only when Run is parked in the
 					// drain loop of stopExecution, or has already returned.
-					deadline := time.Now().Add(5 * time.Second)
+					deadline := time.Now().Add(time.Second)
 					for !got {
 						select {
 						case res = <-done:
 							got = true
 							info.Outs["run-returned-before-executor-stopped"]++
+							w.anomaly.Store(true)
 							continue
 						default:
 						}
@@ -731,7 +760,7 @@ func (area) Execute(raw json.RawMessage) (string, *hcommon.Info, error) {
 					}
 					close(e.release)
 					if got {
-						waitState(e.gid, 2*time.Second, func(s string) bool { return s == "" || s == "chan send" })
+						waitState(e.gid, time.Second, func(s string) bool { return s == "" || s == "chan send" })
 					}
 				case <-watchdog:
 					hung = true
@@ -758,8 +787,9 @@ func (area) Execute(raw json.RawMessage) (string, *hcommon.Info, error) {
 			if !hung && !res.panicked && res.err == nil && w.synced && o.Reply.K == "exec" && o.Reply.BadTs == 0 {
 				select {
 				case <-w.started:
-				case <-time.After(2 * time.Second):
+				case <-time.After(time.Second):
 					info.Outs["executor-not-started"]++
+					w.anomaly.Store(true)
 				}
 			} else {
 				// an unexpected start still has to be waited for to be logged
